@@ -200,9 +200,23 @@ func c20Run(c *fw.Ctx) {
 		return r.Status, r.Header.Get("Content-Type"), r.Body, true
 	}
 
+	payloads := c20Payloads
+	if c.Thorough() {
+		// every single byte value inside a benign value, and every ordered pair of HTML/JS/JSON
+		// metacharacters in front of an event-handler-shaped tail
+		for b := 0; b < 256; b++ {
+			payloads = append(payloads, struct{ Name, V string }{fmt.Sprintf("byte-%02x", b), "benign" + string([]byte{byte(b)}) + "value onerror=alert(1)"})
+		}
+		meta := []string{"<", ">", `"`, "'", "&", "/", "=", "`", " ", "\n", "\\", "{", "}", "%", ";", ":", "(", ")", "\u2028", "\x1b"}
+		for _, a := range meta {
+			for _, b := range meta {
+				payloads = append(payloads, struct{ Name, V string }{fmt.Sprintf("meta-%q-%q", a, b), "x" + a + b + "img src=x onerror=alert(1) y=" + b + a})
+			}
+		}
+	}
 	drive(c, "product", -1, func(x *explore.Exec, owned bool) {
 		p := positions[x.Choose("position", len(positions))]
-		pl := c20Payloads[x.Choose("payload", len(c20Payloads))]
+		pl := payloads[x.Choose("payload", len(payloads))]
 		asJSON := p.JSON && x.Choose("accept-json", 2) == 1
 		accept := ""
 		if asJSON {
@@ -280,7 +294,7 @@ func init() {
 	fw.Register(&fw.Check{
 		ID:    "C20",
 		Level: "exploration",
-		Rule: "full product of 14 payloads (URL-bearing text, brace-prefixed text, script element, attribute break-out with double and single quotes, </title> break-out, javascript: URL, entity-encoded markup, UTF-7, overlong UTF-8, NUL, template actions, comment break-out, CR/LF/TAB) x 14 request-controlled positions on the real services " +
+		Rule: "full product of 14 payloads (thorough: plus each of the 256 byte values inside a benign value and all 400 ordered pairs of 20 metacharacters in front of an event-handler-shaped tail) (URL-bearing text, brace-prefixed text, script element, attribute break-out with double and single quotes, </title> break-out, javascript: URL, entity-encoded markup, UTF-7, overlong UTF-8, NUL, template actions, comment break-out, CR/LF/TAB) x 14 request-controlled positions on the real services " +
 			"(proxy callback `error`; authenticator callback `error`, sign-in page redirect_uri query / raw path / host label / state and parameter names, sign-out page redirect_uri and session email, sign-in / sign-out page with a javascript:-scheme redirect_uri whose host is in domain, sign_in / start / client_id / redeem error responses) x {HTML, Accept: application/json (or XHR) where the position has a JSON rendering}; " +
 			"oracle: the HTML token structure (element names and attribute names, via golang.org/x/net/html's tokenizer) equals that of the same page rendered with a benign value, no URL attribute carries a script URL, and JSON bodies parse; " +
 			"distinct_nontrivial = distinct (position, payload, json, status, reflected?)",
